@@ -394,6 +394,23 @@ class MonC09(Monitor):
                 d = diff_snap(snap_of(other), orig, "", 1e-9)
                 if d:
                     fails.append(self.F("replay-differs", f"{name} gives a different sequence: {d}", op=name))
+                # a copy reproduces the calls of the original and shares no state with it:
+                # changing the copy must not change the original
+                vars_before = sorted(seq.declared_variables)
+                calls_before = len(seq._calls) + len(seq._to_build_calls)
+                try:
+                    other.declare_variable("zz_probe_var")
+                    if not other.is_measured():
+                        for nm, sch in other._schedule.items():
+                            if sch.slots:
+                                other.delay(4 * max(sch.channel_obj.min_duration, sch.channel_obj.clock_period), nm)
+                                break
+                except Exception:  # noqa: BLE001
+                    pass
+                after = ls.real.snapshot()
+                if (after != orig or sorted(seq.declared_variables) != vars_before
+                        or len(seq._calls) + len(seq._to_build_calls) != calls_before):
+                    fails.append(self.F("copy-shares-state", f"changing the result of {name} changed the original sequence", op=name))
         return fails
 
 
@@ -484,21 +501,45 @@ class MonC13(Monitor):
             d = self.decl.get(op["ch"])
             if d is not None and d["local"] and not d["has_target"]:
                 fails.append(self.F("pulse-without-target", f"{k} accepted on a local channel without target", op=k))
-        # update the shadow mode from successful calls (from observable API facts only)
-        seq = ls.real.seq
-        if st.real[0] == "ok" or True:
-            self.measured = seq.is_measured()
+        # update the shadow mode from the *successful calls only* (never from the state of the
+        # implementation, which is what is being judged)
+        spec = self.spec
+        if st.real[0] == "ok":
+            if k == "declare":
+                c = spec["channels"][op["id"]]
+                self.decl[op["ch"]] = dict(id=op["id"], dmm=False, local=bool(c["local"]), in_eom=False,
+                                           has_target=(not c["local"]) or op.get("init") is not None)
+                if c["kind"] == "microwave":
+                    self.in_xy = True
+                else:
+                    self.in_ising = True
+            elif k == "detmap":
+                kk = sum(1 for d in self.decl.values() if d["dmm"] and d["id"] == op["id"])
+                self.decl[f"d{op['id']}.{kk}"] = dict(id=op["id"], dmm=True, local=False, in_eom=False, has_target=True)
+                self.in_ising = True
+            elif k == "target":
+                self.decl[op["ch"]]["has_target"] = True
+            elif k == "eomon":
+                self.decl[op["ch"]]["in_eom"] = True
+            elif k == "eomoff":
+                self.decl[op["ch"]]["in_eom"] = False
+            elif k == "measure":
+                self.measured = True
+        elif st.pre != st.post:
+            # a raising call that nevertheless changed the sequence (reported by C09): the mode is
+            # no longer a function of the successful calls; follow the implementation from here
+            seq = ls.real.seq
             decl = {}
             for name, sch in seq._schedule.items():
                 w = wire_name(name)
                 is_dmm = isinstance(sch.channel_obj, DMM)
                 cid = int(sch.channel_id.split("_")[1]) if is_dmm else ls.dev.chan_ids.index(sch.channel_id)
+                old = self.decl.get(w, {})
                 decl[w] = dict(id=cid, dmm=is_dmm, local=sch.channel_obj.addressing == "Local",
-                               in_eom=seq.is_in_eom_mode(name) if not seq.is_parametrized() else False,
-                               has_target=bool(sch.slots))
+                               in_eom=sch.in_eom_mode(), has_target=bool(sch.slots))
             self.decl = decl
-            self.in_xy = any(self.spec["channels"][d["id"]]["kind"] == "microwave" for d in decl.values() if not d["dmm"])
-            self.in_ising = any(d["dmm"] or self.spec["channels"][d["id"]]["kind"] != "microwave" for d in decl.values())
+            self.in_xy = bool(seq._in_xy)
+            self.in_ising = bool(seq._in_ising)
         return fails
 
 
@@ -556,6 +597,70 @@ class MonC13(Monitor):
                                         f"{name} after measure() changed the timeline"
                                         + ("" if raised is None else f" (and raised {type(raised).__name__})"),
                                         op=name, raised=raised is not None))
+        fails += self.parametrized_probe(ls)
+        return fails
+
+    def parametrized_probe(self, ls):
+        """Once a variable is used the sequence is parametrized: inspection calls are refused
+        and the declaration rules keep holding (the calls are only stored, not executed)."""
+        fails = []
+        dev = ls.dev
+        from pulser import Sequence as _Seq
+
+        with warnings.catch_warnings():
+            warnings.simplefilter("ignore")
+            try:
+                seq = _Seq(dev.register, dev.device)
+                # declare every regular channel once, configure every DMM once
+                xy = [i for i, c in enumerate(self.spec["channels"]) if c["kind"] == "microwave"]
+                ids = xy if xy else [i for i, c in enumerate(self.spec["channels"]) if c["kind"] != "microwave"]
+                for n, i in enumerate(ids[:2]):
+                    c = self.spec["channels"][i]
+                    seq.declare_channel(f"p{n}", dev.chan_ids[i],
+                                        initial_target=dev.qids[0] if c["local"] else None)
+                first = "p0"
+                var = seq.declare_variable("dly", dtype=int)
+                seq.delay(var, first)
+            except Exception:  # noqa: BLE001
+                return fails
+            if not seq.is_parametrized():
+                fails.append(self.F("not-parametrized", "using a variable did not make the sequence parametrized", op="delay"))
+                return fails
+            for name, fn in (("get_duration", lambda: seq.get_duration()),
+                             ("current_phase_ref", lambda: seq.current_phase_ref(dev.qids[0], next(iter(seq._basis_ref)))),
+                             ("draw", lambda: seq.draw(show=False))):
+                try:
+                    fn()
+                    fails.append(self.F("inspection-accepted-when-parametrized", f"{name} accepted on a parametrized sequence", op=name))
+                except RuntimeError:
+                    pass
+                except Exception:  # noqa: BLE001
+                    pass
+            if not dev.spec.get("reusable"):
+                # each channel / DMM once, also while the calls are only being stored
+                try:
+                    seq.declare_channel("p_again", dev.chan_ids[ids[0]])
+                    fails.append(self.F("declared-twice-when-parametrized", "a channel was declared twice on a device without reusable channels (parametrized)", op="declare_channel"))
+                except Exception:  # noqa: BLE001
+                    pass
+                if dev.dmm_objs and not xy:
+                    dm = dev.register.define_detuning_map({q: 1.0 / dev.nq for q in dev.qids})
+                    try:
+                        seq.config_detuning_map(dm, "dmm_0")
+                        ok1 = True
+                    except Exception:  # noqa: BLE001
+                        ok1 = False
+                    if ok1:
+                        try:
+                            seq.config_detuning_map(dm, "dmm_0")
+                            fails.append(self.F("declared-twice-when-parametrized", "a DMM was configured twice on a device without reusable channels (parametrized)", op="config_detuning_map"))
+                        except Exception:  # noqa: BLE001
+                            pass
+            try:
+                seq.declare_channel(first, dev.chan_ids[ids[0]])
+                fails.append(self.F("name-twice-when-parametrized", "a channel name was declared twice (parametrized)", op="declare_channel"))
+            except Exception:  # noqa: BLE001
+                pass
         return fails
 
 
